@@ -293,6 +293,52 @@ Definition some_call_answered (c : case) : bool :=
 Definition no_relay_no_submit_b (c : case) : bool :=
   negb (proposal_blinded c) || some_call_answered c || negb (is_some (o_submit (c_obs c))).
 
+(* 5b. ... and a full block that a relay DID return in time is submitted, without waiting for the other
+       relays: for every call that was seen made and whose scripted answer is a full block handed back
+       at [f], before the end of the context, something is submitted no later than [f] -- whatever the
+       other relays are doing then (still inside their call, hanging until the context ends, failing,
+       slow to give up).  With 4 (what is submitted was delivered by then) the submission is the
+       earliest full block, at the instant it came back.
+       Left to Go's scheduler, and exempt: another relay's call returning WITHOUT a block at the very
+       instant [f] (each returning call probes the semaphore with TryAcquire/Release, so the call
+       that brings the block can find it held by the other's probe and leave without handing the
+       block over). *)
+Definition call_returns (deadline : N) (r : relay) (k : nat) (st : N) : N :=
+  match scripted r k with
+  | UHang => N.max st deadline + scripted_lat r k
+  | _ => st + scripted_lat r k
+  end.
+
+(* every call seen made: (the instant it returned, its answer was a full block) *)
+Definition returned_calls (c : case) : list (N * bool) :=
+  flat_map (fun ic : nat * list (N * ureq) =>
+    let '(i, calls) := ic in
+    match nth_error (e_relays (c_env c)) i with
+    | None => []
+    | Some r => map (fun kc : nat * (N * ureq) =>
+                       (call_returns (e_deadline (c_env c)) r (fst kc) (fst (snd kc)), is_ok (scripted r (fst kc))))
+                    (indexed 0 calls)
+    end) (indexed 0 (o_unblind (c_obs c))).
+
+Definition scheduler_decides (c : case) (f : N) : bool :=
+  existsb (fun fb : N * bool => (fst fb =? f) && negb (snd fb)) (returned_calls c).
+
+Definition submitted_by (c : case) (f : N) : bool :=
+  match o_submit (c_obs c) with Some (t, _) => t <=? f | None => false end.
+
+Definition unblinds_to (c : case) : bool :=
+  match e_proposal (c_env c) with
+  | POk p => p_blinded p && is_some (full_container (p_version p))
+  | PErr => false
+  end.
+
+Definition first_block_submitted (c : case) : bool :=
+  negb (unblinds_to c)
+  || forallb (fun fb : N * bool =>
+       let '(f, ok) := fb in
+       negb ok || negb (f <? e_deadline (c_env c)) || scheduler_decides c f || submitted_by c f)
+     (returned_calls c).
+
 (* 1b. a duty whose Prepare succeeded carries, when it is handed to Propose, the account the provider
        holds for ITS validator and the reveal that account gave when asked for ITS epoch -- whatever
        other duties the same service handled before or in between *)
@@ -356,7 +402,8 @@ Definition P_core (c : case) : bool :=
   && degrades_ok c
   && other_slot_refused c
   && unready_silent c
-  && prepared_duty_own c.
+  && prepared_duty_own c
+  && first_block_submitted c.
 
 (* ------------------------------------------------------------------------------------------- *)
 (* Time.  The clauses above are evaluated on the answers the providers were SEEN to give ([actual]: a
